@@ -27,15 +27,16 @@ struct Env {
     status_dir: std::path::PathBuf,
     /// what the mock WireServer answers to /secure-channel/status (raw response segments)
     ws_reply: Arc<Mutex<Vec<Vec<u8>>>>,
+    ws_close: Arc<std::sync::atomic::AtomicBool>,
     root_pid: u32,
     sport: u16,
 }
 
 impl Env {
     fn start_background_tasks(&self) {
-        let kk = KeyKeeper::new("http://168.63.129.16/".parse().unwrap(), "/var/lib/azure-proxy-agent/keys".into(), "/var/log/azure-proxy-agent".into(), Duration::from_millis(60), &self.w.shared);
+        let kk = KeyKeeper::new("http://168.63.129.16/".parse().unwrap(), "/var/lib/azure-proxy-agent/keys".into(), "/var/log/azure-proxy-agent".into(), Duration::from_millis(15), &self.w.shared);
         self.w.rt.spawn(async move { kk.poll_secure_channel_status().await });
-        let task = ProxyAgentStatusTask::new(Duration::from_millis(20), self.status_dir.clone(), self.w.shared.get_cancellation_token(), self.w.shared.get_key_keeper_shared_state(), self.w.shared.get_agent_status_shared_state());
+        let task = ProxyAgentStatusTask::new(Duration::from_millis(6), self.status_dir.clone(), self.w.shared.get_cancellation_token(), self.w.shared.get_key_keeper_shared_state(), self.w.shared.get_agent_status_shared_state());
         self.w.rt.spawn(async move { task.start().await });
     }
     fn port(&mut self) -> u16 {
@@ -72,12 +73,12 @@ impl Env {
             let deadline = Instant::now() + Duration::from_millis(400);
             while Instant::now() < deadline {
                 if self.w.hosts.ws.requests_since(cur).iter().any(|(_, m)| m.target().starts_with("/secure-channel/status")) {
-                    std::thread::sleep(Duration::from_millis(15));
+                    std::thread::sleep(Duration::from_millis(6));
                     return true;
                 }
                 std::thread::sleep(Duration::from_millis(2));
             }
-            if t.elapsed() > Duration::from_millis(3500) {
+            if t.elapsed() > Duration::from_millis(15000) {
                 return false;
             }
         }
@@ -86,8 +87,8 @@ impl Env {
         let f = self.status_dir.join("status.json");
         let read = || std::fs::read_to_string(&f).ok().and_then(|t| serde_json::from_str::<Value>(&t).ok()).map(|v| v["timestamp"].to_string());
         let a = read();
-        for _ in 0..60 {
-            std::thread::sleep(Duration::from_millis(10));
+        for _ in 0..5000 {
+            std::thread::sleep(Duration::from_millis(2));
             let b = read();
             if b.is_some() && b != a {
                 return true;
@@ -98,6 +99,7 @@ impl Env {
     /// liveness after a case; returns the list of dead parts
     fn liveness(&mut self) -> Vec<&'static str> {
         let mut dead = Vec::new();
+        self.ws_close.store(false, std::sync::atomic::Ordering::SeqCst);
         *self.ws_reply.lock().unwrap() = vec![simple_response(200, &[("Content-Type", "application/json")], &good_status())];
         let rec = AuditRec::to(WS, 0, self.root_pid, true);
         let plain = build_request("GET", "/plain", &[("Host", b"h")], None, None);
@@ -126,10 +128,15 @@ fn main() {
     let status_dir = std::path::PathBuf::from("/var/log/azure-proxy-agent/vt-status13");
     let _ = std::fs::create_dir_all(&status_dir);
     let ws_reply: Arc<Mutex<Vec<Vec<u8>>>> = Arc::new(Mutex::new(vec![simple_response(200, &[("Content-Type", "application/json")], &good_status())]));
+    let ws_close = Arc::new(std::sync::atomic::AtomicBool::new(false));
     {
         let r = ws_reply.clone();
+        let cl = ws_close.clone();
         w.hosts.ws.set_responder(Arc::new(move |m: &Msg, _c, _i| {
             if m.target().starts_with("/secure-channel/status") {
+                if cl.load(std::sync::atomic::Ordering::SeqCst) {
+                    return Action::ReplyClose(r.lock().unwrap().clone());
+                }
                 Action::Reply(r.lock().unwrap().clone())
             } else {
                 Action::Reply(vec![simple_response(200, &[], b"ok")])
@@ -137,7 +144,7 @@ fn main() {
         }));
     }
     let root_pid = w.spawn_proc("/usr/bin/vt-waagent", &["100000"], None);
-    let mut env = Env { w, opts, status_dir, ws_reply, root_pid, sport: 45000 };
+    let mut env = Env { w, opts, status_dir, ws_reply, ws_close, root_pid, sport: 45000 };
     env.start_background_tasks();
     env.w.set_key(Some(K1));
     env.w.set_rules(IMDS, Policy::simple("enforce-deny", "enforce", false).to_item());
@@ -156,6 +163,13 @@ fn main() {
         Request { label: String, raw: Vec<u8> },
         /// host reply to the key keeper's status poll, followed by a /provision query
         HostReply { label: String, segs: Vec<Vec<u8>> },
+        /// like HostReply but the host closes the connection after writing (declared length never arrives)
+        HostReplyClose { segs: Vec<Vec<u8>> },
+        /// a rule document (as the host could deliver it) in force for IMDS, then a request from alice
+        Rules { doc: Value },
+        /// wake-up notifications (what a `/provision` query with the notify header sends) arriving at each
+        /// of these offsets (microseconds) after a status poll was seen at the host, key latched
+        Notify { offsets_us: Vec<u64> },
     }
     let mut cases: Vec<(Value, Case)> = Vec::new();
     // (1) multi-byte command lines / exe names at every alignment around the truncation offsets
@@ -222,7 +236,21 @@ fn main() {
             if !thorough && bl.starts_with("multibyte") && !(cl == &"json" || cl == &"json-utf16" || cl == &"xml") {
                 continue;
             }
-            for framing in ["cl", "chunked-1+rest", "chunked-3+rest"] {
+            for framing in ["cl", "chunked-1+rest", "chunked-3+rest", "cl-declares-2^63", "cl-declares-2^40"] {
+                if framing.starts_with("cl-declares") {
+                    if *bl != "valid" && *bl != "empty" {
+                        continue;
+                    }
+                    let mut head = "HTTP/1.1 200 OK\r\n".to_string();
+                    if let Some(ct) = ct {
+                        head.push_str(&format!("Content-Type: {ct}\r\n"));
+                    }
+                    let n: u128 = if framing.ends_with("63") { 1u128 << 63 } else { 1u128 << 40 };
+                    let mut v = format!("{head}Content-Length: {n}\r\nConnection: close\r\n\r\n").into_bytes();
+                    v.extend(body);
+                    cases.push((json!({"kind": "host-status-reply", "content_type": cl, "body": bl, "framing": framing}), Case::HostReplyClose { segs: vec![v] }));
+                    continue;
+                }
                 if framing != "cl" && body.len() < 4 {
                     continue;
                 }
@@ -252,6 +280,30 @@ fn main() {
             }
         }
     }
+    // (4) rule documents the host can deliver: dangling identity / role / privilege names, duplicates, missing sections
+    {
+        let privs = json!([{"name": "p", "path": "/a"}, {"name": "q", "path": "/a/b", "queryParameters": {"k": "v"}}]);
+        let variants: Vec<(&str, Value)> = vec![
+            ("assignment-names-undefined-identity", json!({"privileges": privs, "roles": [{"name": "r", "privileges": ["p", "q"]}], "identities": [{"name": "i1", "userName": "bob"}], "roleAssignments": [{"role": "r", "identities": ["i1", "ghost"]}]})),
+            ("assignment-names-only-undefined-identity", json!({"privileges": privs, "roles": [{"name": "r", "privileges": ["p"]}], "identities": [], "roleAssignments": [{"role": "r", "identities": ["ghost"]}]})),
+            ("assignment-names-undefined-role", json!({"privileges": privs, "roles": [], "identities": [{"name": "i1", "userName": "alice"}], "roleAssignments": [{"role": "ghost", "identities": ["i1"]}]})),
+            ("role-names-undefined-privilege", json!({"privileges": privs, "roles": [{"name": "r", "privileges": ["ghost", "p"]}], "identities": [{"name": "i1", "userName": "alice"}], "roleAssignments": [{"role": "r", "identities": ["i1"]}]})),
+            ("duplicate-names", json!({"privileges": [{"name": "p", "path": "/a"}, {"name": "p", "path": "/c"}], "roles": [{"name": "r", "privileges": ["p"]}, {"name": "r", "privileges": ["p"]}], "identities": [{"name": "i1", "userName": "alice"}, {"name": "i1", "userName": "bob"}], "roleAssignments": [{"role": "r", "identities": ["i1"]}, {"role": "r", "identities": ["i1"]}]})),
+            ("no-sections", json!({})),
+            ("only-privileges", json!({"privileges": privs})),
+            ("empty-strings", json!({"privileges": [{"name": "", "path": ""}], "roles": [{"name": "", "privileges": [""]}], "identities": [{"name": ""}], "roleAssignments": [{"role": "", "identities": [""]}]})),
+        ];
+        for (label, rules) in variants {
+            for mode in ["enforce", "audit"] {
+                cases.push((json!({"kind": "rule-document", "shape": label, "mode": mode}), Case::Rules { doc: json!({"defaultAccess": "deny", "mode": mode, "id": format!("id-{label}"), "rules": rules}) }));
+            }
+        }
+    }
+    // (6) wake-up notifications at every 0.125 ms offset across (and past) the key keeper's 15 ms poll interval
+    for round in 0..if thorough { 8 } else { 3 } {
+        let offsets_us: Vec<u64> = (0..=160u64).map(|i| i * 125).collect();
+        cases.push((json!({"kind": "notify-while-latched", "round": round, "offsets_us": "0..20000 step 125"}), Case::Notify { offsets_us }));
+    }
     if let Ok(path) = std::env::var("VERIF_REPLAY") {
         let doc: Value = serde_json::from_str(&std::fs::read_to_string(path).unwrap()).unwrap();
         cases.retain(|c| c.0 == doc["case"]);
@@ -273,10 +325,58 @@ fn main() {
                 let raw = build_request("GET", "/metadata/instance", &[("Host", b"h"), ("Metadata", b"true")], None, None);
                 got_response = Some(env.request(&rec, &raw));
                 // the status task publishes the summaries (status messages / summaries are read there)
-                std::thread::sleep(Duration::from_millis(50));
+                std::thread::sleep(Duration::from_millis(20));
             }
             Case::Request { raw, .. } => {
                 got_response = Some(env.request(&root_rec, raw));
+            }
+            Case::Rules { doc } => {
+                let item: gpa_harness::key_keeper::key::AuthorizationItem = serde_json::from_value(doc.clone()).unwrap();
+                env.w.set_rules(IMDS, Some(item));
+                let pid = env.w.spawn_proc("/usr/bin/vt-app", &["rules"], Some(1001));
+                let rec = AuditRec::to(IMDS, 1001, pid, false);
+                for url in ["/a/x", "/a/b?k=v", "/c", "/zzz"] {
+                    let raw = build_request("GET", url, &[("Host", b"h"), ("Metadata", b"true")], None, None);
+                    got_response = Some(env.request(&rec, &raw));
+                }
+                env.w.set_rules(IMDS, None);
+            }
+            Case::Notify { offsets_us } => {
+                let kk = env.w.shared.get_key_keeper_shared_state();
+                // the process is not alone on the machine: both runtime workers are held for 4 ms at a time
+                // while the notifications arrive (what a busy host does to the agent), so that the work the key
+                // keeper does on a wake-up takes a few milliseconds of its poll interval
+                let stop = Arc::new(std::sync::atomic::AtomicBool::new(false));
+                for _ in 0..env.opts.worker_threads {
+                    let stop = stop.clone();
+                    env.w.rt.spawn(async move {
+                        while !stop.load(std::sync::atomic::Ordering::SeqCst) {
+                            std::thread::sleep(Duration::from_micros(4000));
+                            tokio::task::yield_now().await;
+                        }
+                    });
+                }
+                for o in offsets_us {
+                    let cur = env.w.hosts.ws.cursor();
+                    let t = Instant::now();
+                    while t.elapsed() < Duration::from_millis(1500) && !env.w.hosts.ws.requests_since(cur).iter().any(|(_, m)| m.target().starts_with("/secure-channel/status")) {
+                        std::thread::sleep(Duration::from_micros(200));
+                    }
+                    if t.elapsed() >= Duration::from_millis(1500) {
+                        break; // no poll for 1.5 s (interval: 15 ms): the liveness check below reports it
+                    }
+                    std::thread::sleep(Duration::from_micros(*o));
+                    let _ = env.w.rt.block_on(async { kk.notify().await });
+                }
+                stop.store(true, std::sync::atomic::Ordering::SeqCst);
+                std::thread::sleep(Duration::from_millis(10));
+            }
+            Case::HostReplyClose { segs } => {
+                env.ws_close.store(true, std::sync::atomic::Ordering::SeqCst);
+                *env.ws_reply.lock().unwrap() = segs.clone();
+                let _ = env.poll_key_keeper();
+                let _ = env.provision_query();
+                std::thread::sleep(Duration::from_millis(20));
             }
             Case::HostReply { segs, .. } => {
                 *env.ws_reply.lock().unwrap() = segs.clone();
@@ -286,7 +386,7 @@ fn main() {
                 }
                 // reading the key-keeper status (provision query, status task) must survive whatever the reply put there
                 let _ = env.provision_query();
-                std::thread::sleep(Duration::from_millis(45));
+                std::thread::sleep(Duration::from_millis(20));
             }
         }
         let panics = world::take_panics();
@@ -333,7 +433,7 @@ fn main() {
     res.cov("distinct_nontrivial", nontrivial.len() as u64);
     res.cov("panics_recorded", panics_total);
     res.cov("exhaustive", true);
-    res.cov("rule", "caller command lines/exe names made of 2-, 3- and 4-byte UTF-8 characters behind 0..w-1 ASCII bytes (every alignment against the byte-offset cuts at 512/1024/4096) x allowed/denied; requests with each header-value byte (0x09, 0x7f, 0x80..0xff; quick: 6 representatives) single and repeated, URLs/queries of 1000..65000 bytes, 90 repeated headers, a 30000-byte header value; host replies to the key keeper's status poll over 9 content types x bodies (empty, 1-3 bytes, valid, multi-byte bodies at every alignment) x content-length / chunked with a 1- or 3-byte first chunk (odd UTF-16 frames); after every case: no panic anywhere in the process, the request got an HTTP response, and listener, /provision, key keeper and status task are still live".to_string());
+    res.cov("rule", "caller command lines/exe names made of 2-, 3- and 4-byte UTF-8 characters behind 0..w-1 ASCII bytes (every alignment against the byte-offset cuts at 512/1024/4096) x allowed/denied; requests with each header-value byte (0x09, 0x7f, 0x80..0xff; quick: 6 representatives) single and repeated, URLs/queries of 1000..65000 bytes, 90 repeated headers, a 30000-byte header value; host replies to the key keeper's status poll over 9 content types x bodies (empty, 1-3 bytes, valid, multi-byte bodies at every alignment) x content-length / chunked with a 1- or 3-byte first chunk (odd UTF-16 frames) / a declared Content-Length of 2^63 or 2^40 with the connection closed; 16 rule documents with dangling, duplicate, missing and empty names in force while matching requests arrive; wake-up notifications to the key keeper at every 0.125 ms offset across its poll interval; after every case: no panic anywhere in the process, the request got an HTTP response, and listener, /provision, key keeper and status task are still live".to_string());
     res.assume("a panic is attributed to the case during or directly after which it is recorded");
     std::process::exit(res.finish());
 }
